@@ -12,7 +12,7 @@ confirm={}
 for l in open('/verif/seeded/confirm.log'):
     m=re.match(r'(C\d+-m\d+)[ :](.*)',l.strip())
     if m: confirm.setdefault(m.group(1),[]).append(m.group(2).strip())
-for d in sorted(glob.glob(root+'/C*-m*')):
+for d in sorted(glob.glob(root+'/C*-m*')+glob.glob(root+'/C*-rD*')):
     id=os.path.basename(d)
     prop=id.split('-')[0]
     readme=open(d+'/README.agent.md').read() if os.path.exists(d+'/README.agent.md') else ''
@@ -27,13 +27,16 @@ for d in sorted(glob.glob(root+'/C*-m*')):
       "summary": title,
       "files_touched": files,
       "needs_to_manifest": needs,
-      "produced_by": "independent sub-agent given only the property text and a scratch worktree of /repo (no access to /verif)",
+      "produced_by": ("reverse patch of a fix: commit in /repo (regression case for a repaired defect, see known_findings.jsonl)" if '-rD' in id else "independent sub-agent given only the property text and a scratch worktree of /repo (no access to /verif)"),
       "confirmed_by_me": {
          "how": "tools/verify_seed.sh: fresh scratch worktree of /repo HEAD; git apply patch.diff; go build ./... && go test -vet=off -count=1 . (baseline) ; add demo_test.go and run -run TestSeeded 3x with the change (must fail 3/3) and 3x after reverting the change (must pass 3/3); worktree removed afterwards",
          "log": confirm.get(id,[])
       },
       "demonstration": "demo_test.go (package mqtt; drop into the repository root, run: go test -vet=off -count=1 -run TestSeeded .)",
     }
+    if '-rD' in id:
+        meta["confirmed_by_me"]={"how":"the defect this patch re-introduces was reproduced against the real code when it was found (throw-away tests in /verif/triage, DESIGN.md 9.2); the reverse patch is applied on a scratch worktree by tools/matrix.sh","log":[]}
+        meta["demonstration"]="see /verif/triage and DESIGN.md 9.2"
     if id in matrix:
         st,fired=matrix[id]
         meta["static_checks"]={"caught_by_claimed_property": st=="CAUGHT", "properties_whose_quick_check_fires": fired}
